@@ -1512,12 +1512,12 @@ func main() {
 	cancel3 := []string{"nNN", "NnN", "GnN", "GnP", "gNN", "nfP", "gGN"}
 	if thorough {
 		cancel3 = nil
-		for _, kinds := range allKinds("GNPgnf", 3) {
+		for _, kinds := range allKinds("GNgn", 3) {
 			if strings.ToUpper(kinds) != kinds {
 				cancel3 = append(cancel3, kinds)
 			}
 		}
-		cancel3 = append(cancel3, "UnN", "nUN", "GnNP")
+		cancel3 = append(cancel3, "nfP", "GfP", "fGP", "GnP", "pNG", "UnN", "nUN")
 	}
 	for _, kinds := range cancel3 {
 		g.exhaustive("seeded", kinds, false)
